@@ -6,21 +6,29 @@ A function: {"name": str, "container": "top"|"method"|"arrow"|"funcexpr"|"currie
 A forest:   list of nodes;  a node: {"k": kind, "b": [forest, ...], ...}
 Kinds (b = branches):
   common   if (b=[then, elif.., else?], "else": bool)   for   while   match (b = cases)
-  py       with, awith, afor (async for), try (b=[body, handler, final?])
+  py       with, awith, afor (async for), try (b=[body, handler, final?]),
+           forelse / whileelse / aforelse (b=[body, else-clause]), tryelse (b=[body, handler, else-clause, final?])
   ts/js    dowhile, forin, forof, try
   rs       loop, whilelet, iflet, closure, asyncblock (`async { ... }`, listed by the docs as "async blocks")
-Every block starts with one unique leaf statement, so every control structure encloses a statement.
+Every block holds one unique leaf statement of its own (leaf="first": before its control structures, "last": after
+them) or - leaf="omit" - only blocks without control structures do, so that a control structure can be the ONLY
+statement of the block around it (function body, loop body, else clause, handler, case, closure ...). Either way
+every control structure encloses a statement and the control-structure tree is the same. One exception: a Python
+`else:` of an if whose only content is an `if` keeps its leaf, because `else:` + sole `if` IS `elif` in Python.
 """
 from __future__ import annotations
 
 COMMON = ("if", "for", "while", "match")
 ONLY = {
-    "py": ("with", "awith", "afor", "try"),
+    "py": ("with", "awith", "afor", "try", "forelse", "whileelse", "aforelse", "tryelse"),
     "ts": ("dowhile", "forin", "forof", "try"),
     "js": ("dowhile", "forin", "forof", "try"),
     "rs": ("loop", "whilelet", "iflet", "closure", "asyncblock"),
 }
 LANGS = ("py", "ts", "js", "rs")
+LEAF_MODES = ("first", "last", "omit")
+# kinds with a fixed / bounded number of branches other than one (min, max); `if` has 1..4 and the else flag
+BRANCHES = {"match": (1, 3), "try": (2, 3), "forelse": (2, 2), "whileelse": (2, 2), "aforelse": (2, 2), "tryelse": (3, 4)}
 EXT = {"py": ".py", "ts": ".ts", "js": ".js", "rs": ".rs"}
 
 
@@ -47,10 +55,21 @@ def langs_for(funcs) -> list:
 
 
 class _W:
-    def __init__(self, terse=False):
+    def __init__(self, terse=False, leaf="first"):
         self.lines = []
         self.n = 0
         self.terse = terse  # blocks that hold only their leaf statement are written without a block where the language allows it
+        if leaf not in LEAF_MODES:
+            raise ValueError(leaf)
+        self.leaf = leaf
+
+    def leaf_at(self, forest, keep=False):
+        """where this block's own leaf statement goes: "first" | "last" | None (block of control structures only)"""
+        if not forest:
+            return "first"
+        if self.leaf == "omit":
+            return "first" if keep else None
+        return self.leaf
 
     def add(self, indent, text):
         self.lines.append("    " * indent + text)
@@ -63,18 +82,27 @@ class _W:
 # ---------------------------------------------------------------- python
 
 
-def _py_block(w, head, br, ind):
+def _py_block(w, head, br, ind, keep=False):
     if w.terse and not br:
         i = w.fresh()
         w.add(ind, f"{head} v{i} = f{i}()")
     else:
         w.add(ind, head)
-        _py_forest(w, br, ind + 1)
+        _py_forest(w, br, ind + 1, keep)
 
 
-def _py_forest(w, forest, ind):
-    i = w.fresh()
-    w.add(ind, f"v{i} = f{i}()")
+def _py_forest(w, forest, ind, keep=False):
+    at = w.leaf_at(forest, keep)
+    if at == "first":
+        i = w.fresh()
+        w.add(ind, f"v{i} = f{i}()")
+    _py_nodes(w, forest, ind)
+    if at == "last":
+        i = w.fresh()
+        w.add(ind, f"v{i} = f{i}()")
+
+
+def _py_nodes(w, forest, ind):
     for n in forest:
         k, b = n["k"], n["b"]
         j = w.fresh()
@@ -84,11 +112,16 @@ def _py_forest(w, forest, ind):
             for idx, br in enumerate(conds):
                 _py_block(w, ("if" if idx == 0 else "elif") + f" c{j}_{idx}:", br, ind)
             if has_else:
-                _py_block(w, "else:", b[-1], ind)
-        elif k == "for":
+                # `else:` whose only statement is an `if` would BE an elif link: that block keeps its leaf
+                _py_block(w, "else:", b[-1], ind, keep=len(b[-1]) == 1 and b[-1][0]["k"] == "if")
+        elif k in ("for", "forelse"):
             _py_block(w, f"for i{j} in xs{j}:", b[0], ind)
-        elif k == "while":
+            if k == "forelse":
+                _py_block(w, "else:", b[1], ind)
+        elif k in ("while", "whileelse"):
             _py_block(w, f"while c{j}:", b[0], ind)
+            if k == "whileelse":
+                _py_block(w, "else:", b[1], ind)
         elif k == "match":
             w.add(ind, f"match m{j}:")
             for idx, br in enumerate(b):
@@ -98,24 +131,32 @@ def _py_forest(w, forest, ind):
             _py_block(w, f"with ctx{j}() as r{j}:", b[0], ind)
         elif k == "awith":
             _py_block(w, f"async with ctx{j}() as r{j}:", b[0], ind)
-        elif k == "afor":
+        elif k in ("afor", "aforelse"):
             _py_block(w, f"async for i{j} in xs{j}:", b[0], ind)
+            if k == "aforelse":
+                _py_block(w, "else:", b[1], ind)
         elif k == "try":
             _py_block(w, "try:", b[0], ind)
             _py_block(w, "except Exception:", b[1], ind)
             if len(b) > 2:
                 _py_block(w, "finally:", b[2], ind)
+        elif k == "tryelse":
+            _py_block(w, "try:", b[0], ind)
+            _py_block(w, "except Exception:", b[1], ind)
+            _py_block(w, "else:", b[2], ind)
+            if len(b) > 3:
+                _py_block(w, "finally:", b[3], ind)
         else:
             raise ValueError(k)
 
 
-def render_py(funcs, terse=False):
-    w = _W(terse)
+def render_py(funcs, terse=False, leaf="first"):
+    w = _W(terse, leaf)
     w.add(0, '"""generated skeleton"""')
     headers = {}
     in_class = False
     for f in funcs:
-        is_async = bool({"awith", "afor"} & kinds_in(f["body"]))
+        is_async = bool({"awith", "afor", "aforelse"} & kinds_in(f["body"]))
         kw = "async def" if is_async else "def"
         if f["container"] == "method":
             if not in_class:
@@ -153,8 +194,17 @@ def _ts_single(w, head, br, ind, tail=None):
 
 
 def _ts_forest(w, forest, ind):
-    i = w.fresh()
-    w.add(ind, f"const v{i} = f{i}();")
+    at = w.leaf_at(forest)
+    if at == "first":
+        i = w.fresh()
+        w.add(ind, f"const v{i} = f{i}();")
+    _ts_nodes(w, forest, ind)
+    if at == "last":
+        i = w.fresh()
+        w.add(ind, f"const v{i} = f{i}();")
+
+
+def _ts_nodes(w, forest, ind):
     for n in forest:
         k, b = n["k"], n["b"]
         j = w.fresh()
@@ -205,8 +255,8 @@ def _ts_forest(w, forest, ind):
             raise ValueError(k)
 
 
-def render_ts(funcs, typed=True, terse=False):
-    w = _W(terse)
+def render_ts(funcs, typed=True, terse=False, leaf="first"):
+    w = _W(terse, leaf)
     w.add(0, "// generated skeleton")
     headers = {}
     in_class = False
@@ -279,8 +329,17 @@ def render_ts(funcs, typed=True, terse=False):
 
 
 def _rs_forest(w, forest, ind):
-    i = w.fresh()
-    w.add(ind, f"let v{i} = f{i}();")
+    at = w.leaf_at(forest)
+    if at == "first":
+        i = w.fresh()
+        w.add(ind, f"let v{i} = f{i}();")
+    _rs_nodes(w, forest, ind)
+    if at == "last":
+        i = w.fresh()
+        w.add(ind, f"let v{i} = f{i}();")
+
+
+def _rs_nodes(w, forest, ind):
     for n in forest:
         k, b = n["k"], n["b"]
         j = w.fresh()
@@ -341,8 +400,8 @@ def _rs_forest(w, forest, ind):
             raise ValueError(k)
 
 
-def render_rs(funcs, terse=False):
-    w = _W(terse)
+def render_rs(funcs, terse=False, leaf="first"):
+    w = _W(terse, leaf)
     w.add(0, "// generated skeleton")
     headers = {}
     in_impl = False
@@ -398,19 +457,20 @@ def compact(text, headers):
     return "\n".join(out) + "\n", new_headers
 
 
-def render(funcs, lang, layout="lines"):
-    """layout: lines | compact (brace languages: one physical line per top-level item) | terse (blocks that hold only
+def render(funcs, lang, layout="lines", leaf="first"):
+    """leaf: first | last | omit - where a block that holds control structures has its own leaf statement (module docstring).
+    layout: lines | compact (brace languages: one physical line per top-level item) | terse (blocks that hold only
     their leaf statement are written without a block: `if c: stmt`, `if (c) stmt;`, `pat => expr,`, `|p| expr`,
     `(a) => expr`) - the control-structure tree, and with it the documented depth, is the same in every layout."""
     if layout == "compact" and lang != "py":
-        return compact(*render(funcs, lang))
+        return compact(*render(funcs, lang, "lines", leaf))
     terse = layout == "terse"
     if lang == "py":
-        return render_py(funcs, terse)
+        return render_py(funcs, terse, leaf)
     if lang == "ts":
-        return render_ts(funcs, True, terse)
+        return render_ts(funcs, True, terse, leaf)
     if lang == "js":
-        return render_ts(funcs, False, terse)
+        return render_ts(funcs, False, terse, leaf)
     if lang == "rs":
-        return render_rs(funcs, terse)
+        return render_rs(funcs, terse, leaf)
     raise ValueError(lang)
